@@ -18,7 +18,7 @@ CFG = dict(
     technique="Lean 4 proof (inductive invariant over op histories) + regenerated constants/call-site facts/fingerprints + differential run against the real "
               "ethKeyManagerSigner on a real Badger DB (restart = close/reopen) + implementation-side pairwise slashability oracle",
     lean=["Ssv.Props.C04"],
-    engines=[dict(harness="ekm", driver="m_ekm", n_quick=500, n_thorough=1200, thorough_seeds=3, n_search=600, search_seeds=4, case_delim="reset")],
+    engines=[dict(harness="ekm", driver="m_ekm", n_quick=250, n_thorough=1200, thorough_seeds=3, n_search=600, search_seeds=4, case_delim="reset")],
     rule="seeded histories (18-60 ops, 1-2 shares with fresh BLS keys per history, all on one on-disk Badger DB) over {add, addfail, remove, removefail, bump, "
          "bbegin/bread/bwrite (real BumpSlashingProtection paused at its storage calls), satt, sblk (full/blinded), tick, restart}; sources/targets/slots drawn at, "
          "just below and around the clock and the stored record; 'malformed' histories add targets/slots above the clock, source >= target, far-future values; "
